@@ -10,12 +10,12 @@ Operations
 * `R:<entry>`  record; entry = items joined by `,`: `k=v`, `k<` (open a dict under key k), `>` (close);
   `-` is the empty entry
 * `L:<path>:<names>`  select on the chapter reached by `path` (`.`-separated, `-` = the logbook itself)
-* `S` stream, `P` str(), `O:<i>` pop(i), `D:<i>` del [i], `X:<i,j,…>` del [slice] (index list of the slice),
+* `S` stream, `C:<path>` stream of the chapter at the (non-empty) path, `P` str(), `O:<i>` pop(i), `D:<i>` del [i], `X:<i,j,…>` del [slice] (index list of the slice),
   `K` pickle round trip, `H:<names|none>` set header, `G:<0|1>` set log_header
 
 Observation: `-`; `L:<col>` / `T:<col>;<col>…` / `nopath` (None printed as `N`); `t<h>:<record ids>` for the
 emitted text (h = header flag); `ok:<row>` / `raise` for pop; `ok` / `raise` for deletions.
-State: `[buffindex:rows:chapters]` recursively (rows `/`-separated, dicts sorted by key, chapters sorted
+State: `[buffindex(*):rows:chapters]` recursively (`*` = header_streamed set) (rows `/`-separated, dicts sorted by key, chapters sorted
 by name as `<name>[…]`), then `;<header>;<log_header>;<header_streamed>`.
 
 `stats k:<key> r:<name>:<fn>:<args> … d:<data>` and
@@ -58,6 +58,10 @@ def parseOp (s : String) : Option Op :=
   | ["R", e] => (parseEntry e).map Op.record
   | ["L", p, ns] => do pure (Op.select (← parsePath p) (← parseList parseNat ns))
   | ["S"] => some .stream
+  | ["C", p] => do
+      match (← parsePath p) with
+      | c :: rest => pure (Op.streamAt c rest)
+      | [] => none
   | ["P"] => some .str
   | ["O", i] => (parseInt i).map Op.pop
   | ["D", i] => (parseInt i).map Op.delIndex
@@ -78,14 +82,17 @@ def showRows (rs : List Row) : String := if rs.isEmpty then "-" else "/".interca
 
 partial def showLB (lb : LB) : String :=
   let chs := lb.chapters.mergeSort (fun a b => a.1 ≤ b.1)
-  "[" ++ toString lb.buffindex ++ ":" ++ showRows lb.rows ++ ":" ++
+  "[" ++ toString lb.buffindex ++ (if lb.headerStreamed then "*" else "") ++ ":" ++ showRows lb.rows ++ ":" ++
     (if chs.isEmpty then "-" else String.join (chs.map fun p => toString p.1 ++ showLB p.2)) ++ "]"
 
 def showState (lb : LB) : String :=
   showLB lb ++ ";" ++ (match lb.header with | none => "none" | some h => showList toString h) ++ ";" ++
     showBool lb.logHeader ++ ";" ++ showBool lb.headerStreamed
 
-def showCol (c : List (Option Int)) : String := showList (showOpt toString) c |>.replace "none" "N"
+/-- `None` (a missing name, or a field whose value is Python's `None`, which travels as the reserved
+code 900001 — `dict.get(name, None)` cannot tell the two apart) is printed as `N` -/
+def showCol (c : List (Option Int)) : String :=
+  showList (fun (v : Option Int) => match v with | none => "N" | some 900001 => "N" | some x => toString x) c
 
 def showObs : Obs → String
   | .none => "-"
@@ -93,6 +100,9 @@ def showObs : Obs → String
   | .sel (some (.single c)) => "L:" ++ showCol c
   | .sel (some (.multi cs)) => "T:" ++ (if cs.isEmpty then "-" else ";".intercalate (cs.map showCol))
   | .text t => "t" ++ showBool t.header ++ ":" ++
+      showList (fun (r : Row) => match dictGet r 0 with | some v => toString v | none => "?") t.rows
+  | .textAt none => "nopath"
+  | .textAt (some t) => "t" ++ showBool t.header ++ ":" ++
       showList (fun (r : Row) => match dictGet r 0 with | some v => toString v | none => "?") t.rows
   | .popped none => "raise"
   | .popped (some r) => "ok:" ++ showRow r
@@ -126,12 +136,14 @@ def statFn (code : String) : Option (List Int → List Int → Int) :=
   | "max" => some fun _ v => v.foldl max (v.headD 0)
   | "min" => some fun _ v => v.foldl min (v.headD 0)
   | "lin" => some fun a v => a.headD 0 * isum v + (a.drop 1).headD 0      -- lin(a, values, b=0)
+  | "lin2" => some fun a v => a.headD 0 * isum v + (a.drop 1).headD 0     -- lin2(a, b, values): two frozen positionals
   | "cnt" => some fun a v => ((v.filter (fun x => decide (a.headD 0 ≤ x))).length : Int)
   | "nth" => some fun a v => if v.isEmpty then 0 else v.getD ((a.headD 0).toNat % v.length) 0
   | "wsum" => some fun _ v => isum (v.zipIdx.map fun p => ((p.2 : Int) + 1) * p.1)
   | _ => none
 
 abbrev St := Stats.Statistics (List Int) Int (List Int) Int
+
 
 def parseArgs (s : String) : Option (List Int) :=
   if s = "-" then some [] else (s.splitOn "_").mapM parseInt
@@ -140,6 +152,44 @@ def showRec (r : List (Name × Int)) : String :=
   if r.isEmpty then "e" else ",".intercalate (r.map fun p => toString p.1 ++ "=" ++ toString p.2)
 
 def parseData (s : String) : Option (List (List Int)) := parseList2 parseInt (s.drop 2).toString
+
+/-- tuple-valued keys (like `ind.fitness.values`): `fit1` = the 1-tuple `(ind[0],)`, `fit2` = `(ind[0], ind[-1])` -/
+def keyFnT (code : String) : Option (List Int → List Int) :=
+  match code with
+  | "fit1" => some fun l => [l.headD 0]
+  | "fit2" => some fun l => [l.headD 0, l.getLastD 0]
+  | _ => none
+
+/-- functions on a tuple of tuples -/
+def statFnT (code : String) : Option (List Int → List (List Int) → Int) :=
+  match code with
+  | "tlen" => some fun _ v => (v.length : Int)
+  | "tsum" => some fun _ v => isum (v.map isum)
+  | "tmax0" => some fun _ v => (v.map (·.headD 0)).foldl max ((v.headD []).headD 0)
+  | "twidth" => some fun _ v => ((v.headD []).length : Int)
+  | "tlin" => some fun a v => a.headD 0 * isum (v.map isum) + (a.drop 1).headD 0
+  | _ => none
+
+abbrev StT := Stats.Statistics (List Int) (List Int) (List Int) Int
+
+def handleStatsT (toks : List String) : Option String := do
+  let mut st : Option StT := none
+  let mut out : Option String := none
+  for t in toks do
+    match t.splitOn ":" with
+    | ["k", code] =>
+      if st.isSome || out.isSome then failure
+      st := some (Stats.new (← keyFnT code))
+    | ["r", name, fn, args] =>
+      if out.isSome then failure
+      let s ← st
+      st := some (Stats.register s (← parseNat name) (← statFnT fn) (← parseArgs args))
+    | ["d", _] =>
+      if out.isSome then failure
+      let s ← st
+      out := some (showRec (Stats.compile s (← parseData t)))
+    | _ => failure
+  out
 
 def handleStats (toks : List String) : Option String := do
   let mut st : Option St := none
@@ -199,6 +249,7 @@ def handle : List String → String
     | some os => runHist os
     | none => "bad-op"
   | "stats" :: toks => (handleStats toks).getD "bad-op"
+  | "statst" :: toks => (handleStatsT toks).getD "bad-op"
   | "multi" :: toks => (handleMulti toks).getD "bad-op"
   | _ => "bad-op"
 
